@@ -171,6 +171,14 @@ def mutate(p, rng):
         files["vendor/lib/" + rng.choice(["laze-lib.yml", "laze-lib.yml", "laze.yml", "other.yml"])] = [lib]
         if rng.random() < 0.5:
             imp["path"] = "vendor/lib"
+        if rng.random() < 0.3:
+            # the other import kinds (built-in `laze:` files, a command) with a download directory outside the imports directory:
+            # `..` components or an absolute path (inside the scratch project) — accepted or reported, never a crash
+            imp = {rng.choice(["laze", "laze", "command"]): rng.choice(["defaults", "defaults", "nosuch", ""])}
+            if "command" in imp:
+                imp["command"] = rng.choice(["true", "false", "mkdir -p ${dldir} && touch ${dldir}/laze-lib.yml"])
+                imp["name"] = "cmdimp"
+            imp["dldir"] = rng.choice(["../laze-defaults", "../../x", "a/../b", "..", "@ROOT@/absdl", "@ROOT@/vendor/../absdl", "x/y", ""])
         root["imports"] = list(root.get("imports") or []) + [imp]
     elif kind == "defaults-ctxlist":
         files["laze-project.yml"][0]["defaults"] = {rng.choice(["module", "app"]): {"context": rng.choice([["default", "c1"], [], ["default"], ["nosuch"], [""]])}}
